@@ -38,15 +38,17 @@ FAMILY = "route"
 # --------------------------------------------------------------------------------------------------
 PATHS = {"root": "/", "a": "/a", "ab": "/a/b", "ax": "/a/{x}", "ar": "/a/{*r}", "xb": "/{x}/b", "x": "/{x}"}
 PK = list(PATHS)
-MK = ["get", "post", "gp", "any", "foo", "anyns"]
+MK = ["get", "post", "gp", "any", "foo", "anyns", "gf"]  # gf: GET + custom FOO in one guard
 STD9 = frozenset(["GET", "POST", "PUT", "DELETE", "PATCH", "HEAD", "OPTIONS", "CONNECT", "TRACE"])
 STRUCTS = ["flat", "nest:/p", "nest:/p/{q}", "split:/p", "nest2:/p+/{q}"]
+# "g2": two nesting levels WITHOUT prefixes (see table_ops); its fallback factor is a set of positions "pos:S+L1+G2"
+G2_POS = ["R", "S", "G1", "L1", "G2", "L2"]
 FBS = ["none", "root", "nested", "both"]
 DOMS = {"none": [], "one": ["a.T"], "lit+param": ["a.T", "{s}.T"], "catch+lit": ["{*s}.T", "a.T"]}
 REQ_METHODS = ["GET", "POST", "FOO", "DELETE"]
 SEGS = ["a", "b", "p", "zz"]
-SINGLE_FBS = ("FB1__AM_0", "FB2__AM_0", "FB3__AM_0")
-SHARED_ROOT_FB = "RFB35"
+SINGLE_FBS = ("FB1__AM_0", "FB2__AM_0", "FB3__AM_0", "RFB42")
+SHARED_ROOT_FB = "RFB43"
 PACK_PLAIN = 10
 PACK_DOMAIN = 8
 
@@ -65,6 +67,13 @@ def valid_table(t):
     n = len(t["routes"])
     st, fb, dom = t["struct"], t["fb"], t["dom"]
     kind = st.split(":")[0]
+    if kind == "g2":
+        if n != 3 or not fb.startswith("pos:") or dom not in ("none", "one"):
+            return False
+        pos = [x for x in fb[4:].split("+") if x]
+        return len(pos) <= 3 and all(x in G2_POS for x in pos) and len({tuple(r) for r in t["routes"]}) == 3
+    if fb.startswith("pos:"):
+        return False
     if dom == "none":
         if st == "flat" and fb in ("nested", "both"):
             return False
@@ -118,6 +127,16 @@ def tables_for(tier):
                 for st in ("flat", "nest:/p"):
                     for fb in FBS:
                         add("Q4:domains", T(rs, st, fb, dm))
+        # Q5 grouping blueprints without prefixes: [nest{r0, S?}, nest{G1?, nest{r1, L1?}}, nest{G2?, nest{r2, L2?}}, R?]
+        # every set of <= 3 fallback positions (inside one domain nest, so that the tables can be packed without a
+        # path prefix on the chain), and 8 position sets without any domain (served alone)
+        r5 = [("a", "get"), ("ab", "get"), ("root", "post")]
+        for k in range(0, 4):
+            for pos in itertools.combinations(G2_POS, k):
+                add("Q5:prefix-free-nesting", T(r5, "g2", "pos:" + "+".join(pos), "one"))
+        for pos in (("S", "L1", "L2"), ("S", "G1", "L2"), ("G1", "L1", "L2"), ("S", "L2"), ("L1", "L2"), ("G1", "G2"),
+                    ("R", "L1", "L2"), ("S", "G2", "L2")):
+            add("Q5:prefix-free-nesting", T(r5, "g2", "pos:" + "+".join(pos), "none"))
     else:
         choices = [(p, m) for p in PK for m in MK]
         # T1 all tables of <= 2 routes, flat, default fallback (incl. twice the same route)
@@ -150,6 +169,11 @@ def tables_for(tier):
             for ms in (("get", "post", "gp"), ("any", "foo", "get"), ("foo", "anyns", "post")):
                 for st, fb in (("flat", "root"), ("nest:/p", "both"), ("split:/p", "nested")):
                     add("T5:three-routes", T(list(zip(tri, ms)), st, fb))
+        for rs in ([("a", "get"), ("ab", "get"), ("xb", "post")], [("x", "gf"), ("ax", "foo"), ("root", "any")]):
+            for k in range(0, 4):
+                for pos in itertools.combinations(G2_POS, k):
+                    for dm in ("one", "none"):
+                        add("T6:prefix-free-nesting", T(rs, "g2", "pos:" + "+".join(pos), dm))
     seed = int(os.environ.get("VERIF_SEED", "0") or 0)
     if seed and out:
         k = seed % len(out)
@@ -188,6 +212,17 @@ def table_ops(t, fbs=SINGLE_FBS, tld="t", with_root_fb=True):
     st = t["struct"]
     kind, _, arg = st.partition(":")
     doms = [d.replace("T", tld) for d in DOMS[t["dom"]]]
+    if kind == "g2":
+        pos = [x for x in G2_POS if x in t["fb"][4:].split("+")]
+        ids = dict(zip(pos, fbs[1:4]))
+
+        def gfb(x):
+            return [{"k": "fallback", "c": ids[x]}] if x in ids else []
+
+        body = [nest_op([routes[0]] + gfb("S")),
+                nest_op([nest_op([routes[1]] + gfb("L1"))] + gfb("G1")),
+                nest_op([nest_op([routes[2]] + gfb("L2"))] + gfb("G2"))] + gfb("R")
+        return [nest_op(body, domain=doms[0])] if doms else body
     if not doms:
         if kind == "flat":
             return routes + rootfb
@@ -213,6 +248,8 @@ def single_spec(idx, t):
 
 
 def pack_group(t):
+    if t["struct"] == "g2" and t["dom"] == "none":
+        return "solo"  # a mount prefix on the chain would change what is being checked
     if t["dom"] == "none":
         return "plain"
     return "domroot" if t["fb"] in ("root", "both") else "dom"
@@ -222,7 +259,7 @@ def pack_spec(group, n, members):
     """members: [(idx, table)]."""
     ops, tables = [], []
     for j, (idx, t) in enumerate(members):
-        fbs = (f"RFB{3 * j:02d}", f"RFB{3 * j + 1:02d}", f"RFB{3 * j + 2:02d}")
+        fbs = tuple(f"RFB{4 * j + i:02d}" for i in range(4))
         if group == "plain":
             ops.append(nest_op(table_ops(t, fbs), prefix=f"/t{j}"))
             tables.append({"idx": idx, "table": t, "mount": f"/t{j}", "tld": "t"})
@@ -257,7 +294,7 @@ S1 = paths_upto(1)
 def table_paths(t, tier):
     full = list(S3)
     kind, _, arg = t["struct"].partition(":")
-    if kind != "flat":
+    if kind in ("nest", "split", "nest2"):
         insts = ["/p"] if arg == "/p" else ["/p/zz", "/p/a"]
         for i, inst in enumerate(insts):
             full += [inst + s for s in (S3 if i == 0 else S2)]
@@ -368,8 +405,9 @@ def dprio(guard):
 
 
 class Node:
-    def __init__(self, parent, prefix, domain, depth):
+    def __init__(self, parent, prefix, domain, depth, own=True):
         self.parent, self.prefix, self.domain, self.depth = parent, prefix, domain, depth
+        self.own = own  # nested with a prefix or domain of its own (or the root); a pure grouping blueprint is not
         self.fallback = None
         self.psegs = parse_pattern(prefix) if prefix else []
 
@@ -413,8 +451,8 @@ class Model:
         for r in self.routes:
             self.by_cid.setdefault(r.cid, []).append(r)
 
-    def _walk(self, bp, parent, prefix, domain, depth):
-        n = Node(parent, prefix, domain, depth)
+    def _walk(self, bp, parent, prefix, domain, depth, own=True):
+        n = Node(parent, prefix, domain, depth, own)
         self.nodes.append(n)
         for op in bp["ops"]:
             k = op["k"]
@@ -424,7 +462,8 @@ class Model:
                 n.fallback = op["c"]
                 self.fb_node[op["c"]] = n
             elif k == "nest":
-                self._walk(op["bp"], n, prefix + (op.get("prefix") or ""), op.get("domain") or domain, depth + 1)
+                self._walk(op["bp"], n, prefix + (op.get("prefix") or ""), op.get("domain") or domain, depth + 1,
+                           own=bool(op.get("prefix") or op.get("domain")))
         return n
 
 
@@ -483,7 +522,9 @@ def expect(model, method, path, host):
     for r in cands:
         if pmatch(r.segs, rsegs):
             groups.setdefault(r.key, []).append(r)
-    compat = [n for n in model.nodes if n.domain in (None, dom)]
+    # a blueprint nested without prefix and domain covers nothing by itself (Blueprint::fallback, "Nesting without
+    # prefix": its fallback only serves method mismatches on its own routes)
+    compat = [n for n in model.nodes if n.domain in (None, dom) and n.own]
     covering = sorted([(n, cover(n, rsegs)) for n in compat if cover(n, rsegs)], key=lambda x: -x[0].depth)
     info = {}
     if not groups:
@@ -847,7 +888,11 @@ def observe(tier):
             solo.append(i)
     groups = collections.OrderedDict((g, []) for g in ("plain", "dom", "domroot"))
     for i in accepted:
-        groups[pack_group(tables[i])].append((i, tables[i]))
+        g = pack_group(tables[i])
+        if g == "solo":
+            solo.append(i)
+        else:
+            groups[g].append((i, tables[i]))
     packs = []
     for g, members in groups.items():
         size = PACK_PLAIN if g == "plain" else PACK_DOMAIN
@@ -859,7 +904,7 @@ def observe(tier):
     for p in bad_packs:  # members of a rejected pack are compiled alone
         solo.extend(p["members"])
     solo = sorted(set(solo))
-    max_solo = 40 if tier == "quick" else 200
+    max_solo = 40 if tier == "quick" else 260
     if len(solo) > max_solo:
         caps["solo_units_dropped"] = len(solo) - max_solo
         solo = solo[:max_solo]
@@ -1026,7 +1071,9 @@ def eval_unit(job):
             return res
         if exp.kind == "ambiguous":
             cands = exp.info["candidates"]
-            key = "route:ambiguous-accepted:same-path:" + "+".join(sorted(r.mk for r in cands))
+            # one key per class of the method on which the guards overlap (all manifestations of "conflicts on
+            # custom methods are not detected" collapse to one key)
+            key = "route:ambiguous-accepted:same-path:overlap-on-" + ("standard" if q["method"] in STD9 else "custom") + "-method"
             if key not in seen_keys:
                 seen_keys.add(key)
                 res["violations"].append((
